@@ -275,7 +275,9 @@ func c08setup(t *testing.T, sc c08scenario, out *c08obs) func(c *vsched.Ctl) fun
 				if i < len(r.Passed) && r.Passed[i] != "" {
 					passed = r.Passed[i]
 				}
-				emit := passed != "start" && !strings.HasSuffix(passed, ":start")
+				// scheduling points before accesses to the chain-key flag are no steps of the model (inside the
+				// critical section nothing else can move; outside it they are what lets the race be seen)
+				emit := passed != "start" && !strings.HasSuffix(passed, ":start") && !strings.Contains(passed, ":field:")
 				if th == "driver" {
 					// a step of the driver is a step of the model's arrival thread or of its registrar
 					switch passed {
